@@ -86,6 +86,12 @@ def iterN {α : Type} (step : α → α) : Nat → α → α
   | 0, a => a
   | d+1, a => iterN step d (step a)
 
+theorem iterN_succ' {α : Type} (step : α → α) : ∀ d a, iterN step (d+1) a = step (iterN step d a) := by
+  intro d
+  induction d with
+  | zero => intro a; rfl
+  | succ d ih => intro a; rw [iterN, ih (step a)]; rfl
+
 /-- A counting loop `for (k = k0; k < n; ++k)`: `step` must advance the counter `cnt` by one while `cnt < n`. -/
 theorem iter_count {α : Type} (cnt : α → Nat) (n : Nat) (step : α → α)
     (hs : ∀ a, cnt a < n → cnt (step a) = cnt a + 1) :
